@@ -44,9 +44,9 @@ pub const F_SHAPES: [(&str, usize); 10] = [
     (" -> FOutSingleHigh", 6),
 ];
 const F_TYPES: &str = "struct FOutMixed { @location(0) a: vec4<f32>, @builtin(frag_depth) d: f32, @location(1) b: vec4<f32> };\nstruct FOutSparse { @location(1) a: vec4<f32>, @location(3) b: vec4<f32> };\nstruct FOutBuiltins { @builtin(frag_depth) d: f32, @builtin(sample_mask) m: u32 };\nstruct FOutDescending { @location(2) bright: vec4<f32>, @builtin(frag_depth) d: f32, @location(0) colour: vec4<f32> };\nstruct FOutSwapped { @location(1) a: vec4<f32>, @location(0) b: vec4<f32> };\nstruct FOutSingleHigh { @builtin(sample_mask) m: u32, @location(5) only: vec4<f32> };\n";
-const V_TYPES: &str = "struct VInA { @location(0) a: vec4<f32>, @builtin(vertex_index) vi: u32 };\nstruct VInB { @location(1) b: vec2<f32> };\n";
+const V_TYPES: &str = "struct VInA { @location(0) a: vec4<f32>, @builtin(vertex_index) vi: u32 };\nstruct VInB { @location(1) b: vec2<f32> };\nstruct VInBuiltins { @builtin(instance_index) i: u32 };\n";
 pub const C_SIZES: [(&str, [u32; 3]); 5] = [("1", [1, 1, 1]), ("2, 3", [2, 3, 1]), ("4, 5, 6", [4, 5, 6]), ("WG_N", [7, 1, 1]), ("WG_N, 2", [7, 2, 1])];
-pub const V_PARAMS: [&[Option<&str>]; 5] = [&[], &[Some("VInA")], &[Some("VInA"), Some("VInB")], &[Some("VInB"), None], &[None, Some("VInB"), Some("VInA")]];
+pub const V_PARAMS: [&[Option<&str>]; 7] = [&[], &[Some("VInA")], &[Some("VInA"), Some("VInB")], &[Some("VInB"), None], &[None, Some("VInB"), Some("VInA")], &[Some("VInBuiltins")], &[Some("VInA"), Some("VInBuiltins")]];
 
 fn f_body(shape: usize) -> String {
     match shape {
@@ -116,7 +116,7 @@ pub fn space(thorough: bool) -> Vec<Prog> {
     for &k in counts {
         for rot in 0..if thorough { 7 } else { 4 } {
             for ov in [false, true] {
-                let vs = (0..k).map(|i| VEntry { name: V_NAMES[(i + rot) % 5].to_string(), params: V_PARAMS[(i + rot) % 5].to_vec() }).collect();
+                let vs = (0..k).map(|i| VEntry { name: V_NAMES[(i + rot) % 5].to_string(), params: V_PARAMS[(i + rot) % V_PARAMS.len()].to_vec() }).collect();
                 let fs = (0..k).map(|i| FEntry { name: F_NAMES[(i + rot) % 5].to_string(), shape: (i * 3 + rot) % F_SHAPES.len() }).collect();
                 let cs = (0..k).map(|i| CEntry { name: C_NAMES[(i + rot) % 5].to_string(), size: (i * 2 + rot) % 5 }).collect();
                 out.push(build(vs, fs, cs, ov, format!("multi|k={k}|rot={rot}|ov={}", ov as u8)));
@@ -182,9 +182,14 @@ pub fn check_model(p: &Prog, text: &str) -> Vec<String> {
         match h.literal.field("buffers").and_then(|b| b.as_array().map(|a| a.to_vec())) {
             Ok(bufs) => {
                 let got: Vec<String> = bufs.iter().map(|b| match b { Val::Call { path, args } if path.len() == 2 && path[1] == "vertex_buffer_layout" && args.len() == 1 => format!("{}({})", path[0], match &args[0] { Val::Path(p) if p.len() == 1 => p[0].clone(), o => format!("{o:?}") }), o => format!("{o:?}") }).collect();
-                let want: Vec<String> = structs.iter().zip(step_params.iter()).map(|(s, sp)| format!("{s}({sp})")).collect();
-                if got != want {
-                    out.push(format!("{}_entry buffers {got:?}, expected {want:?}", v.name));
+                // C14 speaks of the buffer *count*; which struct sits in which slot (and with whose step mode) is C07's
+                // statement, so only the multiset of structs is compared here
+                let mut got_structs: Vec<String> = got.iter().map(|g| g.split('(').next().unwrap_or("").to_string()).collect();
+                got_structs.sort();
+                let mut want_structs: Vec<String> = structs.iter().map(|s| s.to_string()).collect();
+                want_structs.sort();
+                if got_structs != want_structs {
+                    out.push(format!("{}_entry buffers {got:?}, the entry has struct parameters {structs:?}", v.name));
                 }
             }
             Err(e) => out.push(e),
@@ -361,12 +366,7 @@ pub fn check_exec(p: &Prog, records: &[serde_json::Value]) -> Vec<String> {
                 if b.matches("array_stride").count() != n {
                     out.push(format!("`{}` yields {} buffer layouts for {n} struct parameters", v.name, b.matches("array_stride").count()));
                 }
-                // step modes in parameter order: Instance, Vertex, Instance ...
-                let modes: Vec<&str> = b.match_indices("step_mode: ").map(|(i, _)| if b[i + 11..].starts_with("Instance") { "I" } else { "V" }).collect();
-                let want: Vec<&str> = (0..n).map(|i| if i % 2 == 0 { "I" } else { "V" }).collect();
-                if modes != want {
-                    out.push(format!("`{}` step modes {modes:?}, given {want:?}", v.name));
-                }
+                // (the order of the layouts and of the step modes is C07's statement)
                 if r["module"] != true {
                     out.push("vertex_state does not forward the module".into());
                 }
@@ -510,6 +510,6 @@ pub fn run(tier: &str) -> i32 {
     rep.set("compiled_modules", json!(cases.len()));
     rep.sample(json!({"key": progs[10].key, "wgsl": progs[10].src}));
     rep.sample(json!({"key": progs[progs.len() - 1].key, "wgsl": progs[progs.len() - 1].src}));
-    rep.rule = "full product of {no vertex entry, 5 parameter shapes (none, 1 struct, 2 structs, struct+builtin, builtin+2 structs)} x {no fragment entry, 10 result shapes (none, @location(0), @location(2), builtin only, struct{loc0,builtin,loc1}, struct{loc1,loc3}, struct{builtins}, struct{loc2,builtin,loc0}, struct{loc1,loc0}, struct{builtin,loc5})} x {no compute entry, 5 workgroup sizes incl. constants} x overrides present/absent, names rotating over ascii / mixed case / single letter / non-ASCII / upper case; plus programs with 2..3 entries per stage. omodel on every state; a spread subset compiled against real wgpu and executed on the stand-in (every helper and pipeline constructor called, descriptors recorded). Colour-target count expected = highest written @location + 1.".into();
+    rep.rule = "full product of {no vertex entry, 7 parameter shapes (none, 1 struct, 2 structs, struct+builtin, builtin+2 structs, builtin-only struct, struct + builtin-only struct)} x {no fragment entry, 10 result shapes (none, @location(0), @location(2), builtin only, struct{loc0,builtin,loc1}, struct{loc1,loc3}, struct{builtins}, struct{loc2,builtin,loc0}, struct{loc1,loc0}, struct{builtin,loc5})} x {no compute entry, 5 workgroup sizes incl. constants} x overrides present/absent, names rotating over ascii / mixed case / single letter / non-ASCII / upper case; plus programs with 2..3 entries per stage. omodel on every state; a spread subset compiled against real wgpu and executed on the stand-in (every helper and pipeline constructor called, descriptors recorded). Colour-target count expected = highest written @location + 1.".into();
     rep.finish()
 }
